@@ -119,12 +119,15 @@ func (h *Hub) Shutdown() {
 
 	// closing a connection removes it from the connections map, also other goroutines may do so at the same time,
 	// so do not iterate over the map itself
+	// a connection that is just being set up is either registered by now or will not be registered any more
+	h.muxConReg.Lock()
 	h.muxCon.Lock()
 	connections := make([]api.ShipConnectionInterface, 0, len(h.connections))
 	for _, c := range h.connections {
 		connections = append(connections, c)
 	}
 	h.muxCon.Unlock()
+	h.muxConReg.Unlock()
 
 	for _, c := range connections {
 		c.CloseConnection(false, 0, "")
